@@ -146,7 +146,9 @@ impl Desc {
                 )));
             }
 
-            if !label_names.insert(format!("${}", label_name)) {
+            // A variable label must not reuse the name of a const label either,
+            // otherwise every sample would carry that label name twice.
+            if label_names.contains(label_name) || !label_names.insert(format!("${}", label_name)) {
                 return Err(Error::Msg(format!(
                     "duplicate variable label name {}",
                     label_name
